@@ -156,18 +156,21 @@ Definition update_params (r : reg) (remote_uri : ostr) (params : query) (is_init
     match (if dmem String.eqb params "lt"                                                                                       (* :198-202 *)
            then '(p1, v) <- pop_single_arg params "lt" ;;
                 match v with
-                | None => Raise TypeError                                  (* int(None) *)
+                | None => Raise BadRequest                                 (* int(None): TypeError, caught since f8ef49b *)
                 | Some s => match parse_int s with Some n => Ok (p1, Some n) | None => Raise BadRequest end
                 end
            else Ok (params, None)) with
     | Raise e => UpFail r e
     | Ok (p1, new_lt) =>
-      match (if dmem String.eqb p1 "base" then pop_single_arg p1 "base" else Ok (p1, None)) with                                (* :204 *)
+      match (if dmem String.eqb p1 "base"                                                                                       (* :204-207 *)
+             then '(p2, b) <- pop_single_arg p1 "base" ;;
+                  match b with None => Raise BadRequest (* "base needs a value" *) | Some _ => Ok (p2, b) end
+             else Ok (p1, None)) with
       | Raise e => UpFail r e
       | Ok (p2, new_base) =>
         let r1 := match new_lt with Some n => if negb (r_lt r =? n) then set_lt r n else r | None => r end in                    (* :207 *)
         let r2 := match new_base with                                                                                            (* :210 *)
-                  | Some b => if is_initial || negb (String.eqb (r_base r1) b) then set_base r1 b true else r1
+                  | Some b => set_base r1 (if is_initial || negb (String.eqb (r_base r1) b) then b else r_base r1) true   (* explicit even when equal *)
                   | None => r1 end in
         match (if negb (r_base_explicit r2)                                                                                      (* :215 *)
                then match network_base with
@@ -298,12 +301,12 @@ Fixpoint any_m {A} (f : A -> M bool) (l : list A) : M bool :=
 Definition or_m (a : M bool) (b : M bool) : M bool := x <- a ;; if x then Ok true else b.
 Definition base_match (m : matcher) (x : ostr) : M bool :=
   match m with
-  | MPrefix s => match x with None => Raise AttributeError | Some xs => Ok (String.prefix s xs) end
+  | MPrefix s => match x with None => Ok false (* x is not None and ... *) | Some xs => Ok (String.prefix s xs) end
   | MEq v => Ok (ostr_eqb x v)
   end.
 (* [split] : the matcher was defined while search_key was "if" or "rt" *)
 Definition matches (m : matcher * bool) (x : ostr) : M bool :=
-  if snd m then match x with None => Raise AttributeError | Some xs => any_m (fun v => base_match (fst m) (Some v)) (split_ws xs) end
+  if snd m then match x with None => Ok false | Some xs => any_m (fun v => base_match (fst m) (Some v)) (split_ws xs) end
   else base_match (fst m) x.
 Definition _link_matches (l : link) (k : string) (m : matcher * bool) : M bool :=
   any_m (fun kv => if String.eqb (fst kv) k then matches m (snd kv) else Ok false) (l_attrs l).
@@ -338,7 +341,7 @@ Definition py_int (v : ostr) : M Z :=
 Definition _paginate {A} (cands : M (list A)) (q : query) : M (list A) :=
   '(q1, page) <- pop_single_arg q "page" ;;
   '(_, count) <- pop_single_arg q1 "count" ;;
-  let convert (m : M (list A)) : M (list A) := match m with Raise ValueError => Raise BadRequest | Raise KeyError => Raise BadRequest | x => x end in
+  let convert (m : M (list A)) : M (list A) := match m with Raise ValueError => Raise BadRequest | Raise KeyError => Raise BadRequest | Raise TypeError => Raise BadRequest | x => x end in
   convert (
     l <- cands ;;
     l1 <- match page with
